@@ -487,8 +487,20 @@ def _fresh_merge(v, borrowed, cls='cls'):
     return True, False
 
 
+def check_memo(program, rep):
+    from .util import check_memo_invalidation
+    disp = evrules.dispatcher_class(program)
+    n = check_memo_invalidation(
+        program, rep, 'C03.tables', disp, ('dispatch', 'is_handler'),
+        (EVENTS.split('.')[-1], HANDLERS.split('.')[-1]),
+        'a handler removed (or a dispatcher cleared) meanwhile is still '
+        'called from the remembered snapshot, a new one is not')
+    rep.floor('C03.tables', 'query methods of the dispatcher', n, 2)
+
+
 def run(program, rep, tier):
     check_fresh_sets(program, rep)
+    check_memo(program, rep)
     evrules.delivery_sites(program, rep, 'C03', {'deliver', 'snapshot',
                                                  'deref'})
     check_tables(program, rep)
